@@ -138,16 +138,31 @@ def bounded(ctx):
         ann.update({"keywords": ["k1"], "structured_comment": {"a": {"b": "c"}}, "references": [object()]})
         src = SeqRecord(Seq("ACGT"), id="i", annotations=copy.deepcopy({k: v for k, v in ann.items() if k != "references"}), features=[SeqFeature(FeatureLocation(0, 2), type="x", qualifiers={"label": ["l"]})],
                         letter_annotations={"q": [1, 2, 3, 4]})
-        for how in ("record", "seq"):
+        src0 = src
+        for how in ("record", "seq", "circular-record", "rotated-record", "wrapped-twice"):
+            src = src0
             try:
-                w = CircularRecord(src) if how == "record" else CircularRecord(src.seq, annotations={k: v for k, v in ann.items() if k == "topology"})
+                if how in ("circular-record", "rotated-record", "wrapped-twice") and not should_raise:
+                    # the record wrapped may itself be a plasmid: built directly, the result of a rotation, or a wrapper's copy
+                    src = CircularRecord(copy.deepcopy(src0))
+                    if how == "rotated-record":
+                        src = (src >> 1) << 1
+                    elif how == "wrapped-twice":
+                        src = CircularRecord(src)
+                elif how != "record" and how != "seq":
+                    continue
+                w = CircularRecord(src) if how != "seq" else CircularRecord(src.seq, annotations={k: v for k, v in ann.items() if k == "topology"})
                 raised = False
             except ValueError:
                 raised = True
             if raised != should_raise:
                 viol.append(dict(name="wrap_%s_%s" % (topo, how), what="CircularRecord(%s with topology=%r): raised=%r expected %r" % (how, topo, raised, should_raise),
                                  case=dict(topology=topo, how=how)))
-            if not raised and how == "record":
+            if not raised and how != "seq":
+                if w is src:
+                    viol.append(dict(name="wrap_same_object", what="CircularRecord(%s) is the very object it was given, not a copy" % how, case=dict(topology=topo, how=how)))
+                    continue
+                w.id = "edited-id"
                 w.features[0].qualifiers["label"].append("edited")
                 w.features.append(None)
                 w.annotations["new"] = 1
@@ -157,9 +172,9 @@ def bounded(ctx):
                 w.dbxrefs.append("db")
                 if (src.features[0].qualifiers["label"] != ["l"] or len(src.features) != 1 or "new" in src.annotations
                         or src.annotations["keywords"] != ["k1"] or src.annotations["structured_comment"] != {"a": {"b": "c"}}
-                        or src.letter_annotations["q"][0] != 1 or src.dbxrefs):
-                    viol.append(dict(name="wrap_copy", what="editing CircularRecord(record) reached the original record",
-                                     case=dict(topology=topo)))
+                        or src.letter_annotations["q"][0] != 1 or src.dbxrefs or src.id != "i"):
+                    viol.append(dict(name="wrap_copy", what="editing CircularRecord(%s) reached the original record" % how,
+                                     case=dict(topology=topo, how=how)))
     return dict(evaluations=evals, distinct_nontrivial=len(distinct),
                 rule="all words over {A,C,G} of length 1..%d x all queries up to length %d (incl. empty, longer than the record, "
                      "origin-spanning) x every rotation; every operand kind on both sides of +; every slice bound in "
